@@ -1,5 +1,5 @@
 CONSTANTS Engines = {e1, e2, e3}  Gens = {g1, g2}  Utts <- GUtts  NStream = 3  GvStreams = {1, 2}  Hidden = FALSE
-  SFields = {"speed", "ht", "vol", "alpha", "beta", "fperiod", "rate"}  TFields = {"thr", "gvw"}  L = 24
+  SFields = {"speed", "ht", "vol", "alpha", "beta", "fperiod", "rate", "iw"}  TFields = {"thr", "gvw"}  L = 24
 SPECIFICATION GSpec
 INVARIANTS Emit Deterministic
 CHECK_DEADLOCK FALSE
